@@ -45,6 +45,7 @@ class Lower:
         self.ids = {}             # local name -> IDynamic | IStatic | IIndex
         self.result_var = None
         self.boxed = False
+        self.vptr_helpers = set()   # static helpers `template<class T> static vptr_type NAME()` returning &static_vptr<T> / static_vptr<T> under indirect_vptr
 
     def bad(self, what, node):
         raise mc.Unsupported('%s: %s: %s' % (self.fname, what, mc.show(node)))
@@ -98,6 +99,12 @@ class Lower:
             return 'VSetStaticAddr' if addr else 'VSetStatic'
         return None
 
+    def helper_vptr(self, r):
+        """NAME<poly>()  with NAME a helper checked in main(): the if constexpr (indirect_vptr) choice between the two static forms"""
+        if (r[0] == 'call' and r[2] == [] and r[1][0] == 'tmpl' and r[1][1] in self.vptr_helpers and len(r[1][2]) == 1 and self.is_poly(r[1][2][0])):
+            return '(VIf (VHas FIndirectVptr)\n  VSetStaticAddr\n  VSetStatic)'
+        return None
+
     def seq(self, stmts):
         out = [self.s(x) for x in stmts]
         out = [x for x in out if x != 'VSkip']
@@ -131,6 +138,12 @@ class Lower:
             ty = st[1]
             out = []
             for name, init in st[2]:
+                if name == 'vptr' and init is not None:
+                    hv = self.helper_vptr(init) or self.static_vptr_kind(init)
+                    if hv:
+                        out.append(hv)
+                        continue
+                    self.bad('initialiser of vptr not in the subset', st)
                 if init is None:
                     if name == 'vptr' or ty in ('virtual_ptr', 'method_table_error'):
                         if ty == 'virtual_ptr':
@@ -172,6 +185,9 @@ class Lower:
                     sk = self.static_vptr_kind(r)
                     if sk:
                         return sk
+                    hv = self.helper_vptr(r)
+                    if hv:
+                        return hv
                     if r == ('index', ('id', 'Policy::indirect_vptrs'), ('id', 'index')) and self.ids.get('index') == 'IIndex':
                         return 'VSetIndirectAt'
                     if r[0] == 'call' and r[1] == ('id', 'Policy::dynamic_vptr') and len(r[2]) == 1 and self.rarg_call(r[2][0]):
@@ -215,11 +231,24 @@ def main():
     out = {}
     try:
         reg = class_region(src, 'virtual_ptr')
+        # template<class T> static vptr_type NAME() { if constexpr (is_indirect | has_facet<Policy, indirect_vptr>) return &Policy::template static_vptr<T>; else return Policy::template static_vptr<T>; }
+        helpers = set()
+        indirect_names = {'has_facet<Policy,indirect_vptr>', 'has_facet<Policy,policy::indirect_vptr>'}
+        if re.search(r'static\s+constexpr\s+bool\s+is_indirect\s*=\s*(?:Policy::template\s+)?has_facet\s*<\s*(?:Policy\s*,\s*)?(?:policy::)?indirect_vptr\s*>\s*;', reg):
+            indirect_names.add('is_indirect')
+        for m in re.finditer(r'template\s*<\s*class\s+(\w+)\s*>\s*static\s+vptr_type\s+(\w+)\s*\(\s*\)\s*\{', reg):
+            T, name = m.group(1), m.group(2)
+            b = m.end() - 1
+            body = norm(reg[b:mc.balanced(reg, b, '{', '}')])
+            forms = ['{ifconstexpr(%s){return&Policy::templatestatic_vptr<%s>;}else{returnPolicy::templatestatic_vptr<%s>;}}' % (c, T, T) for c in indirect_names]
+            if body in forms:
+                helpers.add(name)
         for fname, header, param in (('ctor', r'\bvirtual_ptr\s*(?=\(\s*Other\s*&&\s*other\s*\))', 'other'),
                                      ('final', r'\bstatic\s+auto\s+final\s*(?=\(\s*Other\s*&&\s*obj\s*\))', 'obj')):
             params, body, line = mc.find_function(reg, header, 'virtual_ptr::' + fname)
-            ast = mc.parse_function_body(body, TEMPLATES)
+            ast = mc.parse_function_body(body, TEMPLATES + tuple(helpers))
             lw = Lower('virtual_ptr::' + fname, param)
+            lw.vptr_helpers = helpers
             text = lw.s(ast)
             if lw.traits_mode is None:
                 raise mc.Unsupported('virtual_ptr::%s: no virtual_traits alias found' % fname)
